@@ -38,6 +38,7 @@ struct mc_harness
 };
 int mc_main(int argc, char **argv, struct mc_harness *h);
 
+extern int mc_errno_pre;
 extern int mc_tier;             /* 0 quick, 1 thorough */
 extern int mc_shard, mc_nshards;
 extern int mc_replaying;
